@@ -112,6 +112,9 @@ func (e *Enc) encodeCall(c *ssa.CallCommon, instr ssa.Instruction, pos token.Pos
 	if kind == "iface" && fileEffect[name] {
 		e.effectObligation(name, pos)
 	}
+	if kind == "extern" && fn != nil && len(args) > 0 {
+		e.externMutationObligation(name, fn, args[0], c.Args[0], pos)
+	}
 	// precise models of a few library functions
 	if kind == "extern" {
 		if m, ok := externModels[name]; ok {
@@ -309,7 +312,17 @@ func (e *Enc) applyCall(name, kind string, fn *ssa.Function, fc *FuncContract, c
 	}
 	for i := 0; i < sig.Results().Len(); i++ {
 		rt := sig.Results().At(i).Type()
-		r := e.fresh("ret_"+sanitize(lastSeg(name)), e.sortOf(rt))
+		var r Term
+		if fc != nil && fc.Pure {
+			// a pure function: its result is an uninterpreted function of its arguments
+			var as []Term
+			for _, a := range args {
+				as = append(as, e.coerce(a))
+			}
+			r = e.define("ret_"+sanitize(lastSeg(name)), e.pureApp(fc, name, i, as, e.sortOf(rt)))
+		} else {
+			r = e.fresh("ret_"+sanitize(lastSeg(name)), e.sortOf(rt))
+		}
 		e.assume(e.typeInv(r, rt, e.cur.now))
 		results = append(results, Val{T: r, Typ: rt})
 		if i < len(rnames) {
@@ -338,6 +351,12 @@ func (e *Enc) applyCall(name, kind string, fn *ssa.Function, fc *FuncContract, c
 	e.reassumeInvariants()
 	for _, r := range results {
 		e.assumeResultInv(r.T, r.Typ, nowAtCall)
+	}
+	if len(results) > 0 && results[0].T.S != "" {
+		e.cur.heap["last|"+name+"|"+string(results[0].T.Sort)] = results[0].T
+		if _, ok := e.heap0["last|"+name+"|"+string(results[0].T.Sort)]; !ok {
+			e.heap0["last|"+name+"|"+string(results[0].T.Sort)] = e.fresh("last0", results[0].T.Sort)
+		}
 	}
 	// a callee flagged returns-fresh hands back a new object: until it escapes it behaves like a local allocation
 	if fc != nil && fc.Flags["returns-fresh"] && len(results) > 0 {
@@ -572,6 +591,26 @@ func (e *Enc) encodeBuiltin(c *ssa.CallCommon, instr ssa.Instruction, pos token.
 		mk := e.p.mapKey(mt)
 		e.frameObligation(instr, "mapdelete", mk, m, pos)
 		e.writersObligation(mk, m, pos)
+		if e.fc != nil {
+			for i, at := range e.fc.At {
+				if at.Callee != "delete" {
+					continue
+				}
+				env := e.fnEnv(e.cur)
+				env.vars["m"] = TV{T: m, Typ: c.Args[0].Type()}
+				env.vars["k"] = TV{T: k, Typ: c.Args[1].Type()}
+				label := at.Clause.Label
+				if label == "" {
+					label = "a" + itoa(i)
+				}
+				t, err := env.Eval(at.Clause.Expr)
+				if err != nil {
+					e.contractError(e.name, at.Clause, err, pos)
+					continue
+				}
+				e.oblige("at", "delete/"+label, pos, t.T, at.Clause.Props, "at delete requires "+at.Clause.Src)
+			}
+		}
 		hk := mapHasKey(mk)
 		h := e.heapGet(e.cur, hk)
 		e.heapSet(e.cur, hk, e.define("H_mh", Store(h, m, Store(Select(h, m), k, False))))
@@ -1075,6 +1114,20 @@ func (e *Enc) onlyFlowsObligations() {
 
 func (e *Enc) assumeEntry() {
 	e.onlyFlowsObligations()
+	if e.fc != nil && e.fc.Pure {
+		// a function declared pure must have an empty write set (whole call tree, inferred syntactically)
+		ms := e.p.ModSets[e.fn]
+		var ks []string
+		for k := range ms {
+			// memory of library types (loggers, buffers) is not modelled as package state
+			if strings.Contains(k, "|X_") {
+				continue
+			}
+			ks = append(ks, k)
+		}
+		sort.Strings(ks)
+		e.obligeNamed(e.name+"/pure/no-writes", "pure", "no-writes", e.fn.Pos(), BoolLit(len(ks) == 0), nil, "declared pure but may write: "+strings.Join(ks, " "))
+	}
 	env := e.fnEnv(e.cur)
 	for _, p := range e.fn.Params {
 		e.assumeLoadedInv(e.vals[p].T, p.Type())
@@ -1577,4 +1630,79 @@ func (e *Enc) loopStoresField(li *loopInfo, obj ssa.Value, name string) bool {
 		}
 	}
 	return false
+}
+
+// pureApp applies the uninterpreted function standing for result i of a pure function.
+func (e *Enc) pureApp(fc *FuncContract, name string, i int, args []Term, res Sort) Term {
+	fn := "pure_" + sanitize(name)
+	if fc.PureName != "" {
+		fn = "pure_" + sanitize(fc.PureName)
+	}
+	if i > 0 {
+		fn += "_" + itoa(i)
+	}
+	var as []Sort
+	for _, a := range args {
+		as = append(as, a.Sort)
+	}
+	e.declareFun(fn, as, res)
+	return App(res, fn, args...)
+}
+
+// externMutationObligation (C04/C05): a library method with a pointer receiver may mutate its receiver;
+// in execution code the receiver must be fresh or per-execution memory (a buffer kept inside a compiled node
+// would be shared state). Read-only methods and synchronised library types are exempt.
+var readOnlyExternMethods = map[string]bool{
+	"String": true, "Bytes": true, "Len": true, "Cap": true, "Available": true, "Error": true, "Unwrap": true,
+}
+
+func (e *Enc) externMutationObligation(name string, fn *ssa.Function, recv Val, recvVal ssa.Value, pos token.Pos) {
+	if !e.frameOn() || fn.Signature.Recv() == nil {
+		return
+	}
+	pt, ok := fn.Signature.Recv().Type().(*types.Pointer)
+	if !ok {
+		return
+	}
+	n, ok := pt.Elem().(*types.Named)
+	if !ok || n.Obj().Pkg() == nil {
+		return
+	}
+	switch n.Obj().Pkg().Path() {
+	case "regexp", "log", "sync", "sync/atomic", "math/rand", "time", "reflect":
+		return
+	}
+	if readOnlyExternMethods[fn.Name()] {
+		return
+	}
+	// only receivers that live in (or are loaded directly from) a field of a compiled-region struct are
+	// checked: that is the "scratch buffer kept in a node" pattern; parameters and captured variables are the
+	// caller's business
+	var fa *ssa.FieldAddr
+	var loaded Term
+	switch x := recvVal.(type) {
+	case *ssa.FieldAddr:
+		fa = x
+	case *ssa.UnOp:
+		if f2, ok := x.X.(*ssa.FieldAddr); ok {
+			fa = f2
+			loaded = recv.T
+		}
+	}
+	if fa == nil {
+		return
+	}
+	st := derefType(fa.X.Type())
+	if _, local, _ := e.p.structSortName(st); !local {
+		return
+	}
+	if r := e.regionOfStruct(e.p.structKeyName(st)); r == "perexec" || r == "scratch" {
+		return
+	}
+	base := e.termOf(fa.X)
+	goalFresh := Ge(Birth(base), e.now0)
+	if loaded.S != "" {
+		goalFresh = Or(goalFresh, Ge(Birth(loaded), e.now0), App(SBool, "perexec", loaded))
+	}
+	e.oblige("frame", "extern-mutation/"+name, pos, goalFresh, []string{"C04", "C05"}, "receiver of mutating library method "+name+" lives in a compiled node: it must be fresh or per-execution memory")
 }
